@@ -40,6 +40,9 @@ def decomposed(draw, kind, tier='quick', max_subs=3):
         p = p.copy(max_depth=p.max_depth + 1)
     f, vs = draw(F.formulas(p))
     cands = [s for s in set(F.subterms(f)) if s[0] not in ('var', 'const') and s != f and F.fvars(s)]
+    if draw(st.integers(0, 3)) == 0:
+        # also leaves: a sub-specification that is a bare constant or a bare variable ("a = 3;", "b = x;")
+        cands += [s for s in set(F.subterms(f)) if s[0] in ('var', 'const') and s != f]
     cands.sort(key=lambda s: (F.size(s), repr(s)))
     k = min(draw(st.sampled_from([0, 1, 1, 2, 2, 3])), max_subs, len(cands))
     subs = []
